@@ -18,7 +18,8 @@ tmpd=$(mktemp -d)
 ( cd $tmpd && PYTHONPATH=$wt timeout 600 /venv/bin/python $out/demo.py > $out/demo_unchanged.log 2>&1 ); demo0=$?
 git -C $wt apply $out/patch.diff; applied=$?
 ( cd $wt && env -u SKEPTICOIN_VERIF flock /tmp/skepticoin_pytest.lock timeout 900 /venv/bin/python -m pytest -q -p no:cacheprovider --timeout=900 > $out/tests.log 2>&1 ); tests=$?
-( cd $tmpd && PYTHONPATH=$wt timeout 600 /venv/bin/python $out/demo.py > $out/demo_changed.log 2>&1 ); demo1=$?
+tmpd2=$(mktemp -d)
+( cd $tmpd2 && PYTHONPATH=$wt timeout 600 /venv/bin/python $out/demo.py > $out/demo_changed.log 2>&1 ); demo1=$?; rm -rf $tmpd2
 rm -rf $tmpd
 # now the check, against the scratch worktree that carries the patch
 lk=""; [ "$pid" = "C10" ] && lk="flock /tmp/skepticoin_pytest.lock"
